@@ -435,6 +435,330 @@ fn l_is_free_orders_body<const NT: usize, const NH: usize>() {
     vassert!("C04", lower.is_free(FrameId(f), k) == pre.block_free(f, k), "is_free agrees with the block's status for every order");
 }
 
+// =============================================================================================
+// Interference at the lower layer (one huge frame: one counter/marker entry + one bitfield).
+// Thread-modular rely/guarantee (DESIGN.md §3). Ghost state of the call under test:
+//   MINE   bits of the bitfield I own (set by my RMWs / handed in with a held block)
+//   W      frames I withhold from the counter (held block + decrements - increments by me)
+//   PART   my part of a huge frame that is (still) marked as allocated whole
+//   WHOLE  I own the huge marker
+// Rely (what other threads may do between my atomic steps):
+//   R1 bits in MINE stay set; bits of frames outside the managed range stay set
+//   R2 a non-huge counter stays <= 512 - W; it cannot become the huge marker while W > 0
+//   R3 a huge marker I own (WHOLE), or whose bitfield I am filling (MINE != 0), stays
+//   R4 a huge marker covering my PART may be cleared by another part holder only after it
+//      filled the whole bitfield: afterwards the bits of PART are set (and protected by R1)
+// Guarantee (asserted on each of my RMWs; it is the mirror image, so it discharges the rely
+// of every other thread): I clear only bits in MINE; I never own more bits than I withhold
+// (|MINE| <= W, except while I fill a bitfield under the marker); the counter moves only by
+// what I withhold / give back; I set the marker only over a counter I saw at 512 and clear it
+// only if I own it or filled its bitfield.
+// =============================================================================================
+pub(crate) struct Ghost {
+    st: *const LState<1, NH1>,
+    frames: usize,
+    mine: [u64; NROWS],
+    nmine: usize,
+    w: usize,
+    part: [u64; NROWS],
+    whole: bool,
+    bad: bool,     // guarantee violated
+    env_steps: usize,
+    joined: bool,  // R4 happened: my part became ordinary held bits
+}
+static mut G: Ghost = Ghost { st: core::ptr::null(), frames: 0, mine: [0; NROWS], nmine: 0, w: 0, part: [0; NROWS], whole: false, bad: false, env_steps: 0, joined: false };
+
+fn out_of_range_mask(frames: usize, r: usize) -> u64 {
+    let lo = r * 64;
+    if frames <= lo { u64::MAX } else if frames < lo + 64 { u64::MAX << (frames - lo) } else { 0 }
+}
+fn entry_atom(st: &LState<1, NH1>) -> &Atom<HugeEntry> {
+    &st.children[0][0]
+}
+
+/// Environment step before my access to `addr` (see bf_env in bitfield.rs for why only the
+/// accessed word needs to change). Entry and rows are correlated only through R3/R4, which is
+/// handled when the entry is the accessed word.
+fn l_env(addr: *const u8, _size: usize) {
+    unsafe {
+        let st = &*G.st;
+        if !kani::any::<bool>() {
+            return;
+        }
+        if core::ptr::eq(addr, (entry_atom(st) as *const Atom<HugeEntry>).cast()) {
+            let old = entry_atom(st).0.load(Relaxed);
+            let new: u16 = kani::any();
+            if old == HUGE {
+                if G.whole || G.nmine > 0 {
+                    return; // R3
+                }
+                if new != HUGE {
+                    // another holder releases the marker (whole free: 512) or splits it (R4)
+                    let has_part = G.part[0] != 0 || G.part[1] != 0 || G.part[2] != 0 || G.part[3] != 0
+                        || G.part[4] != 0 || G.part[5] != 0 || G.part[6] != 0 || G.part[7] != 0;
+                    if has_part {
+                        kani::assume(new as usize <= HUGE_FRAMES - G.w);
+                        // the bitfield was filled; others may already have freed their parts
+                        for r in 0..NROWS {
+                            let v: u64 = kani::any();
+                            st.bitfields[0].row_atom(r).0.store(v | G.part[r] | out_of_range_mask(G.frames, r), Relaxed);
+                            G.mine[r] = G.part[r];
+                            G.part[r] = 0;
+                        }
+                        G.nmine = G.w;
+                        G.joined = true;
+                    } else {
+                        kani::assume(new as usize <= HUGE_FRAMES - G.w);
+                    }
+                }
+            } else {
+                // R2
+                if new == HUGE {
+                    kani::assume(G.w == 0 && G.nmine == 0);
+                } else {
+                    kani::assume(new as usize <= HUGE_FRAMES - G.w);
+                }
+            }
+            entry_atom(st).0.store(new, Relaxed);
+            G.env_steps += 1;
+        } else if let Some((r, _)) = crate::bitfield::verif_bitfield::row_of_addr(&st.bitfields[0], addr) {
+            if G.whole {
+                return; // nobody else touches the bitfield of a huge frame I own entirely
+            }
+            let v: u64 = kani::any();
+            st.bitfields[0].row_atom(r).0.store(v | G.mine[r] | out_of_range_mask(G.frames, r), Relaxed);
+            G.env_steps += 1;
+        }
+    }
+}
+
+/// Ghost update + guarantee check for my own successful writes.
+fn l_on_write(addr: *const u8, size: usize, old: u64, new: u64) {
+    unsafe {
+        let st = &*G.st;
+        if core::ptr::eq(addr, (entry_atom(st) as *const Atom<HugeEntry>).cast()) {
+            let (old, new) = (old as u16, new as u16);
+            if old == new {
+                return;
+            }
+            if old != HUGE && new != HUGE {
+                if new < old {
+                    G.w += (old - new) as usize; // withheld from the counter
+                } else {
+                    let d = (new - old) as usize;
+                    // give back only what I withhold and no longer own as bits
+                    if d + G.nmine > G.w {
+                        G.bad = true;
+                    } else {
+                        G.w -= d;
+                    }
+                }
+            } else if new == HUGE {
+                // whole allocation: only over a completely free huge frame I hold nothing in
+                if old as usize != HUGE_FRAMES || G.w != 0 || G.nmine != 0 {
+                    G.bad = true;
+                }
+                G.whole = true;
+                G.w = HUGE_FRAMES;
+            } else if new as usize == HUGE_FRAMES {
+                // whole free
+                if !G.whole {
+                    G.bad = true;
+                }
+                G.whole = false;
+                G.w = 0;
+            } else if new == 0 {
+                // split: I filled the bitfield and now hold my part as ordinary bits
+                let mut full = true;
+                for r in 0..NROWS {
+                    if G.mine[r] != u64::MAX {
+                        full = false;
+                    }
+                }
+                if !full {
+                    G.bad = true;
+                }
+                if G.whole {
+                    G.whole = false; // keep all 512 bits, W == 512
+                } else {
+                    let mut n = 0;
+                    for r in 0..NROWS {
+                        G.mine[r] = G.part[r];
+                        n += G.part[r].count_ones() as usize;
+                        G.part[r] = 0;
+                    }
+                    if n == 0 {
+                        G.bad = true; // cleared a marker I hold no part of
+                    }
+                    G.nmine = n;
+                    G.joined = true;
+                }
+            } else {
+                G.bad = true;
+            }
+        } else {
+            let Some((r, sh)) = crate::bitfield::verif_bitfield::row_of_addr(&st.bitfields[0], addr) else {
+                return;
+            };
+            let (old, new) = if size >= 8 { (old, new) } else { ((old & ((1u64 << (size * 8)) - 1)) << sh, (new & ((1u64 << (size * 8)) - 1)) << sh) };
+            let set = new & !old;
+            let cleared = old & !new;
+            if cleared & !G.mine[r] != 0 {
+                G.bad = true; // O2
+            }
+            G.mine[r] = (G.mine[r] | set) & !cleared;
+            G.nmine = G.nmine + set.count_ones() as usize - (cleared & (G.mine[r] | cleared)).count_ones() as usize;
+            // never own more bits than withheld -- except while filling under the huge marker
+            let e = entry_atom(st).0.load(Relaxed);
+            if G.nmine > G.w && e != HUGE {
+                G.bad = true;
+            }
+        }
+    }
+}
+
+fn l_interference(st: &LState<1, NH1>, frames: usize, freeze: bool) {
+    unsafe {
+        G = Ghost { st, frames, mine: [0; NROWS], nmine: 0, w: 0, part: [0; NROWS], whole: false, bad: false, env_steps: 0, joined: false };
+        ENV = Some(l_env);
+        ON_WRITE = Some(l_on_write);
+        FREEZE_AT = if freeze { kani::any() } else { usize::MAX };
+    }
+}
+/// Arbitrary state of one huge frame as any other thread could observe it mid-flight:
+/// counter <= 512 or the marker; bits outside the range set.
+fn l_any_state(frames: usize) -> LState<1, NH1> {
+    let st = LState::<1, NH1>::any();
+    let e = entry_atom(&st).0.load(Relaxed);
+    kani::assume(e == HUGE || e as usize <= HUGE_FRAMES);
+    kani::assume(e != HUGE || frames == HUGE_FRAMES);
+    for r in 0..NROWS {
+        let v = st.bitfields[0].row_atom(r).0.load(Relaxed);
+        st.bitfields[0].row_atom(r).0.store(v | out_of_range_mask(frames, r), Relaxed);
+    }
+    st
+}
+fn l_mine_is_block(f: usize, k: usize) -> bool {
+    let mut ok = true;
+    for r in 0..NROWS {
+        if unsafe { G.mine[r] } != block_mask(r, f, k) {
+            ok = false;
+        }
+    }
+    ok
+}
+fn l_mine_empty() -> bool {
+    let mut ok = true;
+    for r in 0..NROWS {
+        if unsafe { G.mine[r] } != 0 {
+            ok = false;
+        }
+    }
+    ok
+}
+
+/// Allocation (untargeted or targeted) of one order under interference.
+fn li_get_body(k: usize, targeted: bool, freeze: bool) {
+    let frames: usize = kani::any();
+    kani::assume(frames >= 1 && frames <= TREE_FRAMES);
+    let st = l_any_state(frames);
+    let lower = st.lower(frames);
+    // concrete row hints (see int_set_first_zeros_body in bitfield.rs)
+    let start: usize = if kani::any() { 0 } else { 5 };
+    kani::assume(start * BITFIELD_ROW < frames);
+    let target: usize = kani::any();
+    kani::assume(target < TREE_FRAMES && target % (1 << k) == 0 && target + (1 << k) <= frames);
+    l_interference(&st, frames, freeze);
+    install(Mode::Interference);
+    let r = lower.get(RowId(start), k, if targeted { Some(FrameId(target)) } else { None });
+    set_mode(Mode::Off);
+    let now = st.snapshot();
+    let g = unsafe { &*core::ptr::addr_of!(G) };
+    vcover!("C01", r.is_ok() && g.env_steps > 0, "allocation succeeds although other threads interfered");
+    vcover!("C01", r.is_err() && g.env_steps > 0, "allocation fails under interference");
+    vassert!("C01", !g.bad, "(guarantee) the call only clears bits it owns, only takes from the counter what it marks, only marks huge frames it saw entirely free");
+    match r {
+        Ok(f) => {
+            let f = f.0;
+            vassert!("C01", f % (1 << k) == 0 && f + (1 << k) <= frames, "granted block is aligned and inside the managed range");
+            vassert!("C02", !targeted || f == target, "a targeted allocation returns exactly the requested frame");
+            if k >= HUGE_ORDER {
+                vassert!("C01", g.whole && now.entries[0] == HUGE, "(O1) the granted huge frame carries this call's marker");
+            } else {
+                vassert!("C01", l_mine_is_block(f, k), "(O1) the granted block is exactly what this call marked itself (no other thread can hold any part of it)");
+                vassert!("C01", block_all(&now.rows[0], f, k, true), "(O1) every frame of the granted block is marked allocated");
+                vassert!("C04", g.w == (1 << k), "the call withholds exactly the granted frames from the counter");
+            }
+        }
+        Err(e) => {
+            vassert!("C03", e == Error::Memory, "contention is reported as out of memory");
+            vassert!("C01", l_mine_empty() && !g.whole, "(O3) a failed allocation keeps nothing marked");
+            vassert!("C04", g.w == 0, "a failed allocation gives back everything it took from the counter");
+        }
+    }
+    if freeze {
+        vassert!("C21", unsafe { STEPS_FROZEN } <= 6 * NROWS + 12, "the call finishes within a bounded number of steps once it runs alone");
+    }
+}
+
+/// Free of a held block under interference. `shape`: 0 = block held as base frames,
+/// 1 = part of a huge frame that is still marked allocated whole (other holders may split it
+/// concurrently), 2 = the whole huge frame (order 9) or a part of a huge frame I own entirely.
+fn li_put_body(k: usize, shape: u8, freeze: bool) {
+    let frames: usize = kani::any();
+    kani::assume(frames >= 1 && frames <= TREE_FRAMES);
+    let st = l_any_state(frames);
+    let lower = st.lower(frames);
+    let f: usize = kani::any();
+    kani::assume(f < TREE_FRAMES && f % (1 << k) == 0 && f + (1 << k) <= frames);
+    l_interference(&st, frames, freeze);
+    unsafe {
+        let e = entry_atom(&st).0.load(Relaxed);
+        if shape == 0 {
+            // held as base frames: bits set and mine, counter excludes them
+            kani::assume(e != HUGE && e as usize + (1 << k) <= HUGE_FRAMES);
+            for r in 0..NROWS {
+                G.mine[r] = block_mask(r, f, k);
+                let v = st.bitfields[0].row_atom(r).0.load(Relaxed);
+                st.bitfields[0].row_atom(r).0.store(v | G.mine[r], Relaxed);
+            }
+            G.nmine = 1 << k;
+            G.w = 1 << k;
+        } else if shape == 1 {
+            kani::assume(e == HUGE && frames == HUGE_FRAMES);
+            for r in 0..NROWS {
+                G.part[r] = block_mask(r, f, k);
+            }
+            G.w = 1 << k;
+        } else {
+            kani::assume(e == HUGE && frames == HUGE_FRAMES);
+            G.whole = true;
+            G.w = HUGE_FRAMES;
+            for r in 0..NROWS {
+                st.bitfields[0].row_atom(r).0.store(0, Relaxed);
+            }
+        }
+    }
+    install(Mode::Interference);
+    let r = lower.put(FrameId(f), k);
+    set_mode(Mode::Off);
+    let g = unsafe { &*core::ptr::addr_of!(G) };
+    vcover!("C03", r.is_ok() && (g.env_steps > 0 || shape == 2), "free succeeds although other threads interfered");
+    vcover!("C03", shape != 1 || g.joined, "another holder (or this call) split the huge frame");
+    vassert!("C01", !g.bad, "(guarantee) the call only clears bits it owns, only returns to the counter what it gave up, only clears markers it owns or filled");
+    vassert!("C03", r.is_ok(), "a free of a held block always succeeds");
+    if shape == 2 && k < HUGE_ORDER {
+        // split of a huge frame I own entirely: everything but the freed block stays mine
+        vassert!("C02", g.w == HUGE_FRAMES - (1 << k) && g.nmine == g.w, "after a split the caller still holds every other frame of the huge frame");
+    } else {
+        vassert!("C01", l_mine_empty() && !g.whole, "after the free the call owns nothing");
+        vassert!("C04", g.w == 0, "after the free the counter got back exactly the freed frames");
+    }
+    if freeze {
+        vassert!("C21", unsafe { STEPS_FROZEN } <= 6 * NROWS + 12, "the call finishes within a bounded number of steps once it runs alone");
+    }
+}
+
 // ---- generated: one harness per concrete order (symbolic orders make CBMC explore dead match arms) ----
 
 // @h props=C04 tier=quick geom=1 tgeom=2 panics=C09 mem=C18
@@ -802,4 +1126,342 @@ fn l_put_o11() {
 #[kani::unwind(18)]
 fn l_put_t2_o10() {
     l_put_body::<2, NH2>(10)
+}
+
+// ---- generated: interference harnesses ----
+// (orders 7/8 at this layer exceed the memory cap; their multi-row paths are covered under
+// interference at the bitfield layer: bi_set_first_zeros_o7/o8, bi_toggle_*_o7/o8)
+
+// @h props=C01,C03,C04,C02 tier=quick geom=1 panics=C03 mem=C18 unwind=C21
+#[kani::proof]
+#[kani::unwind(12)]
+#[kani::stub(core::hint::spin_loop, crate::verif_support::spin_loop_model)]
+fn li_get_o0() {
+    li_get_body(0, false, false)
+}
+#[kani::proof]
+#[kani::unwind(12)]
+#[kani::stub(core::hint::spin_loop, crate::verif_support::spin_loop_model)]
+fn li_get_o9() {
+    li_get_body(9, false, false)
+}
+
+// @h props=C01,C03,C04,C02 tier=thorough geom=1 panics=C03 mem=C18 unwind=C21
+#[kani::proof]
+#[kani::unwind(12)]
+#[kani::stub(core::hint::spin_loop, crate::verif_support::spin_loop_model)]
+fn li_get_o1() {
+    li_get_body(1, false, false)
+}
+#[kani::proof]
+#[kani::unwind(12)]
+#[kani::stub(core::hint::spin_loop, crate::verif_support::spin_loop_model)]
+fn li_get_o2() {
+    li_get_body(2, false, false)
+}
+#[kani::proof]
+#[kani::unwind(12)]
+#[kani::stub(core::hint::spin_loop, crate::verif_support::spin_loop_model)]
+fn li_get_o3() {
+    li_get_body(3, false, false)
+}
+#[kani::proof]
+#[kani::unwind(12)]
+#[kani::stub(core::hint::spin_loop, crate::verif_support::spin_loop_model)]
+fn li_get_o4() {
+    li_get_body(4, false, false)
+}
+#[kani::proof]
+#[kani::unwind(12)]
+#[kani::stub(core::hint::spin_loop, crate::verif_support::spin_loop_model)]
+fn li_get_o5() {
+    li_get_body(5, false, false)
+}
+#[kani::proof]
+#[kani::unwind(12)]
+#[kani::stub(core::hint::spin_loop, crate::verif_support::spin_loop_model)]
+fn li_get_o6() {
+    li_get_body(6, false, false)
+}
+
+// @h props=C01,C03,C04,C02 tier=quick geom=1 panics=C03 mem=C18 unwind=C21
+#[kani::proof]
+#[kani::unwind(12)]
+#[kani::stub(core::hint::spin_loop, crate::verif_support::spin_loop_model)]
+fn li_get_at_o0() {
+    li_get_body(0, true, false)
+}
+#[kani::proof]
+#[kani::unwind(12)]
+#[kani::stub(core::hint::spin_loop, crate::verif_support::spin_loop_model)]
+fn li_get_at_o3() {
+    li_get_body(3, true, false)
+}
+#[kani::proof]
+#[kani::unwind(12)]
+#[kani::stub(core::hint::spin_loop, crate::verif_support::spin_loop_model)]
+fn li_get_at_o9() {
+    li_get_body(9, true, false)
+}
+
+// @h props=C01,C03,C04,C02 tier=thorough geom=1 panics=C03 mem=C18 unwind=C21
+#[kani::proof]
+#[kani::unwind(12)]
+#[kani::stub(core::hint::spin_loop, crate::verif_support::spin_loop_model)]
+fn li_get_at_o1() {
+    li_get_body(1, true, false)
+}
+#[kani::proof]
+#[kani::unwind(12)]
+#[kani::stub(core::hint::spin_loop, crate::verif_support::spin_loop_model)]
+fn li_get_at_o2() {
+    li_get_body(2, true, false)
+}
+#[kani::proof]
+#[kani::unwind(12)]
+#[kani::stub(core::hint::spin_loop, crate::verif_support::spin_loop_model)]
+fn li_get_at_o4() {
+    li_get_body(4, true, false)
+}
+#[kani::proof]
+#[kani::unwind(12)]
+#[kani::stub(core::hint::spin_loop, crate::verif_support::spin_loop_model)]
+fn li_get_at_o5() {
+    li_get_body(5, true, false)
+}
+#[kani::proof]
+#[kani::unwind(12)]
+#[kani::stub(core::hint::spin_loop, crate::verif_support::spin_loop_model)]
+fn li_get_at_o6() {
+    li_get_body(6, true, false)
+}
+#[kani::proof]
+#[kani::unwind(12)]
+#[kani::stub(core::hint::spin_loop, crate::verif_support::spin_loop_model)]
+fn li_get_at_o7() {
+    li_get_body(7, true, false)
+}
+#[kani::proof]
+#[kani::unwind(12)]
+#[kani::stub(core::hint::spin_loop, crate::verif_support::spin_loop_model)]
+fn li_get_at_o8() {
+    li_get_body(8, true, false)
+}
+
+// @h props=C01,C03,C04 tier=quick geom=1 panics=C03 mem=C18 unwind=C21
+#[kani::proof]
+#[kani::unwind(12)]
+#[kani::stub(core::hint::spin_loop, crate::verif_support::spin_loop_model)]
+fn li_put_o0() {
+    li_put_body(0, 0, false)
+}
+#[kani::proof]
+#[kani::unwind(12)]
+#[kani::stub(core::hint::spin_loop, crate::verif_support::spin_loop_model)]
+fn li_put_o6() {
+    li_put_body(6, 0, false)
+}
+
+// @h props=C01,C03,C04 tier=thorough geom=1 panics=C03 mem=C18 unwind=C21
+#[kani::proof]
+#[kani::unwind(12)]
+#[kani::stub(core::hint::spin_loop, crate::verif_support::spin_loop_model)]
+fn li_put_o1() {
+    li_put_body(1, 0, false)
+}
+#[kani::proof]
+#[kani::unwind(12)]
+#[kani::stub(core::hint::spin_loop, crate::verif_support::spin_loop_model)]
+fn li_put_o2() {
+    li_put_body(2, 0, false)
+}
+#[kani::proof]
+#[kani::unwind(12)]
+#[kani::stub(core::hint::spin_loop, crate::verif_support::spin_loop_model)]
+fn li_put_o3() {
+    li_put_body(3, 0, false)
+}
+#[kani::proof]
+#[kani::unwind(12)]
+#[kani::stub(core::hint::spin_loop, crate::verif_support::spin_loop_model)]
+fn li_put_o4() {
+    li_put_body(4, 0, false)
+}
+#[kani::proof]
+#[kani::unwind(12)]
+#[kani::stub(core::hint::spin_loop, crate::verif_support::spin_loop_model)]
+fn li_put_o5() {
+    li_put_body(5, 0, false)
+}
+#[kani::proof]
+#[kani::unwind(12)]
+#[kani::stub(core::hint::spin_loop, crate::verif_support::spin_loop_model)]
+fn li_put_o7() {
+    li_put_body(7, 0, false)
+}
+#[kani::proof]
+#[kani::unwind(12)]
+#[kani::stub(core::hint::spin_loop, crate::verif_support::spin_loop_model)]
+fn li_put_o8() {
+    li_put_body(8, 0, false)
+}
+
+// @h props=C01,C03,C04 tier=quick geom=1 panics=C03 mem=C18 unwind=C21 role=put_part_of_shared_huge
+#[kani::proof]
+#[kani::unwind(12)]
+#[kani::stub(core::hint::spin_loop, crate::verif_support::spin_loop_model)]
+fn li_put_part_o3() {
+    li_put_body(3, 1, false)
+}
+
+// @h props=C01,C03,C04 tier=thorough geom=1 panics=C03 mem=C18 unwind=C21 role=put_part_of_shared_huge
+#[kani::proof]
+#[kani::unwind(12)]
+#[kani::stub(core::hint::spin_loop, crate::verif_support::spin_loop_model)]
+fn li_put_part_o0() {
+    li_put_body(0, 1, false)
+}
+#[kani::proof]
+#[kani::unwind(12)]
+#[kani::stub(core::hint::spin_loop, crate::verif_support::spin_loop_model)]
+fn li_put_part_o1() {
+    li_put_body(1, 1, false)
+}
+#[kani::proof]
+#[kani::unwind(12)]
+#[kani::stub(core::hint::spin_loop, crate::verif_support::spin_loop_model)]
+fn li_put_part_o2() {
+    li_put_body(2, 1, false)
+}
+#[kani::proof]
+#[kani::unwind(12)]
+#[kani::stub(core::hint::spin_loop, crate::verif_support::spin_loop_model)]
+fn li_put_part_o4() {
+    li_put_body(4, 1, false)
+}
+#[kani::proof]
+#[kani::unwind(12)]
+#[kani::stub(core::hint::spin_loop, crate::verif_support::spin_loop_model)]
+fn li_put_part_o5() {
+    li_put_body(5, 1, false)
+}
+#[kani::proof]
+#[kani::unwind(12)]
+#[kani::stub(core::hint::spin_loop, crate::verif_support::spin_loop_model)]
+fn li_put_part_o6() {
+    li_put_body(6, 1, false)
+}
+
+// @h props=C01,C03,C04,C02 tier=quick geom=1 panics=C03 mem=C18 unwind=C21
+#[kani::proof]
+#[kani::unwind(12)]
+#[kani::stub(core::hint::spin_loop, crate::verif_support::spin_loop_model)]
+fn li_put_whole_o0() {
+    li_put_body(0, 2, false)
+}
+#[kani::proof]
+#[kani::unwind(12)]
+#[kani::stub(core::hint::spin_loop, crate::verif_support::spin_loop_model)]
+fn li_put_whole_o9() {
+    li_put_body(9, 2, false)
+}
+
+// @h props=C01,C03,C04,C02 tier=thorough geom=1 panics=C03 mem=C18 unwind=C21
+#[kani::proof]
+#[kani::unwind(12)]
+#[kani::stub(core::hint::spin_loop, crate::verif_support::spin_loop_model)]
+fn li_put_whole_o3() {
+    li_put_body(3, 2, false)
+}
+#[kani::proof]
+#[kani::unwind(12)]
+#[kani::stub(core::hint::spin_loop, crate::verif_support::spin_loop_model)]
+fn li_put_whole_o6() {
+    li_put_body(6, 2, false)
+}
+#[kani::proof]
+#[kani::unwind(12)]
+#[kani::stub(core::hint::spin_loop, crate::verif_support::spin_loop_model)]
+fn li_put_whole_o7() {
+    li_put_body(7, 2, false)
+}
+
+// @h props=C21 tier=quick geom=1 panics=C21 mem=C18 unwind=C21
+#[kani::proof]
+#[kani::unwind(12)]
+#[kani::stub(core::hint::spin_loop, crate::verif_support::spin_loop_model)]
+fn lf_get_o0() {
+    li_get_body(0, false, true)
+}
+#[kani::proof]
+#[kani::unwind(12)]
+#[kani::stub(core::hint::spin_loop, crate::verif_support::spin_loop_model)]
+fn lf_get_o9() {
+    li_get_body(9, false, true)
+}
+
+// @h props=C21 tier=quick geom=1 panics=C21 mem=C18 unwind=C21
+#[kani::proof]
+#[kani::unwind(12)]
+#[kani::stub(core::hint::spin_loop, crate::verif_support::spin_loop_model)]
+fn lf_get_at_o3() {
+    li_get_body(3, true, true)
+}
+
+// @h props=C21 tier=quick geom=1 panics=C21 mem=C18 unwind=C21
+#[kani::proof]
+#[kani::unwind(12)]
+#[kani::stub(core::hint::spin_loop, crate::verif_support::spin_loop_model)]
+fn lf_put_o0() {
+    li_put_body(0, 0, true)
+}
+
+// @h props=C21 tier=quick geom=1 panics=C21 mem=C18 unwind=C21 role=put_part_of_shared_huge
+#[kani::proof]
+#[kani::unwind(12)]
+#[kani::stub(core::hint::spin_loop, crate::verif_support::spin_loop_model)]
+fn lf_put_part_o0() {
+    li_put_body(0, 1, true)
+}
+
+// @h props=C21 tier=quick geom=1 panics=C21 mem=C18 unwind=C21
+#[kani::proof]
+#[kani::unwind(12)]
+#[kani::stub(core::hint::spin_loop, crate::verif_support::spin_loop_model)]
+fn lf_put_whole_o9() {
+    li_put_body(9, 2, true)
+}
+#[kani::proof]
+#[kani::unwind(12)]
+#[kani::stub(core::hint::spin_loop, crate::verif_support::spin_loop_model)]
+fn lf_put_whole_o3() {
+    li_put_body(3, 2, true)
+}
+
+// @h props=C21 tier=thorough geom=1 panics=C21 mem=C18 unwind=C21
+#[kani::proof]
+#[kani::unwind(12)]
+#[kani::stub(core::hint::spin_loop, crate::verif_support::spin_loop_model)]
+fn lf_get_o3() {
+    li_get_body(3, false, true)
+}
+#[kani::proof]
+#[kani::unwind(12)]
+#[kani::stub(core::hint::spin_loop, crate::verif_support::spin_loop_model)]
+fn lf_get_o6() {
+    li_get_body(6, false, true)
+}
+
+// @h props=C21 tier=thorough geom=1 panics=C21 mem=C18 unwind=C21
+#[kani::proof]
+#[kani::unwind(12)]
+#[kani::stub(core::hint::spin_loop, crate::verif_support::spin_loop_model)]
+fn lf_put_o3() {
+    li_put_body(3, 0, true)
+}
+#[kani::proof]
+#[kani::unwind(12)]
+#[kani::stub(core::hint::spin_loop, crate::verif_support::spin_loop_model)]
+fn lf_put_o6() {
+    li_put_body(6, 0, true)
 }
